@@ -132,7 +132,8 @@ def grammar(tape, c, code_ops, other, dilate, pairable=True):
                                "closed"), "wev"), 100 + tape.choose(400, "ws")))
     else:
         cut = tape.choose(len(out) + 1, "cut")
-        tail = [o for o in out[cut:] if o[0] in ("send", "get", "derive_key")]
+        tail = [o for o in out[cut:] if o[0] in ("send", "get", "derive_key",
+                                                 "choose_words_from")]
         out = out[:cut] + [("close",)] + tail[:2]
         return out
     out.append(("close",))
@@ -156,7 +157,7 @@ def run_one(seed, tape, opts):
     DILATE_LISTEN[0] = bool(opts.get("dilate_listen"))
     variant = opts.get("variant", "same")
     welcome = {"error": "sim says no"} if variant == "welcome_error" else {}
-    w = MailboxWorld(tape, opts, welcome=welcome)
+    w = MailboxWorld(tape, dict(opts, late_words=True), welcome=welcome)
     sim = w.sim
     dil = bool(opts.get("dilate"))
     apis = ("deferred", "delegate")
